@@ -12,6 +12,8 @@ from fractions import Fraction as F
 from . import common as C
 from . import c10_lib as L
 
+CLAIM_MORE = 'ALSO proved: fast_SIS / fast_nonMarkov_SIS (C10esis.v), the discrete-time simulators (C10disc.v: summary() equals the arrays as a step function; both modes equal under table rules), simple and complex contagion (C10gen.v: summary = arrays, flag independence).'
+
 CLAIM = dict(
     text="Machine-checked theorems (coq/Props/C10.v, closed under the global context): for Gillespie_SIR/SIS, every graph and every full-data run, the per-node histories are the projections of ONE event log and "
          "the arrays its running counts, hence summary(histories) = arrays whenever event times are strictly increasing (C10_gillespie_summary_equals_arrays; with C18's flag independence these are the plain-mode arrays); "
